@@ -11,6 +11,7 @@ and read back is the record generated; the other flavor's block is unchanged by 
 import io
 import json
 import os
+import time
 import shutil
 import tempfile
 
@@ -417,7 +418,30 @@ def gen_flavors(rng, clean):
         if rng.random() < 0.3:
             fl.append(fl[0].split(":")[0] + ":build")
             fl = list(dict.fromkeys(fl))
+    elif clean and rng.random() < 0.35:
+        # qualified flavors inside the round-trip alphabet (C16_text_roundtrip_*_qual): keys base:qual with a clean
+        # qualifier that does not start with ':', in an order where no unqualified flavor precedes a qualified one
+        # of the same base (the unqualified key of a base, if any, goes after every qualified key of that base)
+        keys, plain = [], []
+        for f in fl:
+            keys += [f + ":" + q for q in rng.sample(["build", "a:b", "x y", "opt-2", "b::c"], rng.choice([1, 1, 2]))]
+            if rng.random() < 0.5:
+                plain.append(f)
+        rng.shuffle(keys)
+        for f in plain:
+            last = max(i for i, k in enumerate(keys) if k.split(":")[0] == f)
+            keys.insert(rng.randint(last + 1, len(keys)), f)
+        fl = keys
     return fl
+
+
+def qual_order(keys):
+    """QualOrder of Lemmas/RecordQual.lean, computed from the keys alone."""
+    for j, b in enumerate(keys):
+        for a in keys[:j]:
+            if a == b or (":" in b and a == b.split(":")[0]):
+                return False
+    return True
 
 
 def gen_vrec(rng):
@@ -592,7 +616,12 @@ def check_rec(ctx, case, impl, answers):
         mo_read = ("EXC:" + a["err"]) if "err" in a else a["rec"]
         if _norm_read(mo_read) != _norm_read(impl["read"]):
             ctx.disagree("record_read", inp, impl["read"], mo_read)
-    ctx.hist("rec=%s/%s" % (case["kind"], "clean" if case.get("clean", False) else ("text" if "text" in case else "dirty")))
+    cls = "clean" if case.get("clean", False) else ("text" if "text" in case else "dirty")
+    if cls == "clean" and any(":" in fq for fq, _ in case["flavors"]):
+        cls = "clean-qual"
+        if not qual_order([fq for fq, _ in case["flavors"]]):
+            raise common.InfraError("generator: a clean record with qualified flavors violates QualOrder: %r" % (case["flavors"],))
+    ctx.hist("rec=%s/%s" % (case["kind"], cls))
     if isinstance(impl["read"], str):
         ctx.hist("read=" + impl["read"])
     if isinstance(impl["text"], str) and impl["text"].startswith("EXC:"):
@@ -694,6 +723,92 @@ def run_hand(case):
         common.rmtree(R)
 
 
+_HEADS = {"$PROD_ROOT": "prodRoot", "$UPS_DB": "upsDb", "$PROD_DIR": "prodDir", "$UPS_DIR": "upsDir"}
+
+
+def _mexpr(v, R):
+    """A hand-written entry as a macro expression (kind, segments) of Lemmas/RecordMacro.lean, or None when it is
+    outside that grammar ($PROD_DIRX, $FLAVOR.table, ...)."""
+    if v is None:
+        return ("missing", [])
+    if v == "none":
+        return ("none", [])
+    if v.startswith("@OUT"):
+        return ("abs", [x for x in (R + v[4:]).split("/") if x])
+    segs = v.split("/")
+    if segs[0] in _HEADS:
+        kind, segs = _HEADS[segs[0]], segs[1:]
+    elif segs[0].startswith("$PROD_") or segs[0].startswith("$UPS_"):
+        return None
+    else:
+        kind = "rel"
+    if any("$" in x and x != "$FLAVOR" for x in segs) or any(x == "" for x in segs):
+        return None
+    return (kind, segs)
+
+
+def hand_expect(case, root, R, exists):
+    """Oracle (ii) for hand-written macro records, model-free: the specification side of C16_macro_records
+    (MDir/MUps/MTab.denote, MacroWF) evaluated on the generator's description.  Returns (dir, table) as the reader
+    must report them for a stack at `root`, or None when the record is outside the class the theorem covers."""
+    f = case["flavor"]
+    md, mu, mt = (_mexpr(case["fields"][k], R) for k in ("PROD_DIR", "UPS_DIR", "TABLE_FILE"))
+    if md is None or mu is None or mt is None or md[0] in ("missing", "prodDir", "upsDir") or mu[0] == "upsDir" or mt[0] == "missing":
+        return None
+    if case["end"] and mu[0] == "missing" and mt[0] != "none":
+        mu = ("none", [])                       # the End: line supplies ups_dir = none for a real table file
+    ds = lambda segs: [f if x == "$FLAVOR" else x for x in segs]
+    rootl = [x for x in root.split("/") if x]
+    d_rel = md[0] in ("rel", "prodRoot", "upsDb")
+    u_rel = mu[0] in ("rel", "prodDir", "prodRoot", "upsDb")
+    # MacroWF
+    if mu[0] == "rel" and md[0] == "none":
+        return None
+    if (mu[0] == "prodDir" or mt[0] == "prodDir") and not d_rel:
+        return None
+    if mt[0] == "upsDir" and not u_rel:
+        return None
+    if mt[0] == "rel" and (not mt[1] or any("$" in x for x in mt[1])):
+        return None
+    if md[0] == "abs" and any("$" in x for x in md[1]):
+        return None
+
+    def macro(kind, segs, D, U):
+        if kind in ("prodRoot",):
+            return rootl + ds(segs)
+        if kind == "upsDb":
+            return rootl + ["ups_db"] + ds(segs)
+        if kind == "abs":
+            return segs
+        if kind == "prodDir":
+            return D + ds(segs)
+        if kind == "upsDir":
+            return U + ds(segs)
+        raise KeyError(kind)
+    D = None if md[0] == "none" else (rootl + ds(md[1]) if md[0] == "rel" else macro(md[0], md[1], None, None))
+    if mu[0] in ("none", "missing"):
+        U = mu[0]
+    elif mu[0] == "rel":
+        U = D + ds(mu[1])
+    else:
+        U = macro(mu[0], mu[1], D, None)
+    p = lambda l: "/" + "/".join(l)
+    if mt[0] == "none":
+        T = "none"
+    elif mt[0] == "rel":
+        U2 = (D + ["ups"]) if (U == "missing" and D is not None) else U
+        if isinstance(U2, list):
+            a, b = p(U2 + mt[1]), p(rootl + mt[1])
+            T = a if a in exists else b if b in exists else a
+        elif D is not None:
+            T = p(D + mt[1])
+        else:
+            T = "/".join(mt[1])
+    else:
+        T = p(macro(mt[0], mt[1], D, U if isinstance(U, list) else None))
+    return ("none" if D is None else p(D), T)
+
+
 def check_hand(ctx, case, obs):
     R, stack, new = obs["R"], obs["stack"], obs["new"]
     pairs = [(new, "$NEW"), (stack, "$STACK"), (R, "$R")]
@@ -748,6 +863,18 @@ def check_hand(ctx, case, obs):
         if want is not None and v["dir"] != want:
             ctx.fail("hand_dir_resolves/" + phase, case, lib_records.subst(v, pairs), None,
                      note=lib_records.subst("PROD_DIR = %s read as %r, wanted %r" % (pd, v["dir"], want), pairs))
+        # the macro semantics of C16_macro_records, evaluated without the model
+        exp = hand_expect(case, root, R, set(obs["ex_before" if phase == "before" else "ex_after"]))
+        ctx.hist("hand:class=" + ("macro-spec" if exp is not None else "outside"))
+        if exp is not None:
+            if "$" in "".join(str(case["fields"][k]) for k in ("PROD_DIR", "UPS_DIR", "TABLE_FILE")):
+                ctx.hist("hand:macro-spec-with-macro")
+            if v["dir"] != exp[0]:
+                ctx.fail("hand_macro_dir/" + phase, case, lib_records.subst(v, pairs), None,
+                         note=lib_records.subst("fields %r: directory read as %r, the macros mean %r" % (case["fields"], v["dir"], exp[0]), pairs))
+            if v["table"] != exp[1]:
+                ctx.fail("hand_macro_table/" + phase, case, lib_records.subst(v, pairs), None,
+                         note=lib_records.subst("fields %r: table file read as %r, the macros mean %r" % (case["fields"], v["table"], exp[1]), pairs))
 
 
 # ================================================================================================
@@ -1075,11 +1202,18 @@ def run(ctx):
         evaluate(ctx, cc)
     nreloc, nrec = ctx.n(200, 5000), ctx.n(3000, 60000)
     done_l = done_r = 0
-    while (done_l < nreloc or done_r < nrec) and not ctx.out_of_time():
+    soft = ctx.t0 + (90 if ctx.tier == "quick" and not getattr(ctx, "escalated", False) else 1e9)   # quick tier: well under 3 minutes
+    while (done_l < nreloc or done_r < nrec) and not ctx.out_of_time() and (time.time() < soft or done_l == 0):
         a, b = min(60, nreloc - done_l), min(1500, nrec - done_r)
         evaluate(ctx, gen_batch(ctx.rng, a, b))
         done_l += a
         done_r += b
+    for k in ("rec=vrec/clean-qual", "rec=crec/clean-qual"):
+        if done_r >= 1500 and ctx.histogram.get(k, 0) < 20:
+            raise common.InfraError("degenerate distribution: only %d cases of class %s" % (ctx.histogram.get(k, 0), k))
+    if done_l >= 60 and ctx.histogram.get("hand:macro-spec-with-macro", 0) < done_l:
+        raise common.InfraError("degenerate distribution: only %d hand-written macro records inside the class of C16_macro_records"
+                                % ctx.histogram.get("hand:macro-spec-with-macro", 0))
     views = sum(v for k, v in ctx.histogram.items() if k.startswith("view=after"))
     if nreloc and views < 2 * done_l:
         raise common.InfraError("degenerate distribution: only %d relocated views from %d stacks" % (views, done_l))
